@@ -31,14 +31,17 @@ def el(sym):
     return None if sym == "VS0" else elem.get_by_symbol(sym)
 
 
+NAN_SERIAL = -1     # coq/Topo/Model.v:nan_serial
+
+
 def norm_serial(s):
+    """None stays None; a float NaN (what pandas makes of a missing serial) is reported as the sentinel;
+    numbers are compared by value (10.0 == 10)."""
     if s is None:
         return None
     try:
-        if isinstance(s, float) and math.isnan(s):
-            return None
-        if isinstance(s, np.floating) and np.isnan(s):
-            return None
+        if isinstance(s, (float, np.floating)) and math.isnan(float(s)):
+            return NAN_SERIAL
     except TypeError:
         pass
     return int(s)
